@@ -39,6 +39,8 @@ type dlClient struct {
 	noise    map[uint64]int      // unwatched / removed logs per block
 	filterCalls int
 	filterErrs  map[int]byte // k-th FilterLogs call fails once: 'g' generic transient error, 'd' wrapped context.DeadlineExceeded
+	hdrCalls    int
+	hdrFaults   map[int]byte // k-th header-by-number call: 'm' answers with a foreign block (hash differs from the logs'), 'n' not found once, 'e' transient error
 	tipTag   *big.Int
 	finTag   *big.Int
 	exhausted bool
@@ -54,6 +56,23 @@ func (c *dlClient) header(n uint64) *types.Header {
 
 func (c *dlClient) HeaderByNumber(ctx context.Context, number *big.Int) (*types.Header, error) {
 	if number != nil && number.Sign() >= 0 {
+		k := c.hdrCalls
+		c.hdrCalls++
+		if kind, ok := c.hdrFaults[k]; ok {
+			delete(c.hdrFaults, k)
+			switch kind {
+			case 'm': // a lagging / forked backend: the header of another block at this height
+				h := c.header(number.Uint64())
+				h.Extra = []byte("foreign")
+				return h, nil
+			case 'n':
+				c.hdrCalls--
+				return nil, ethereum.NotFound
+			default:
+				c.hdrCalls--
+				return nil, errors.New("transient rpc failure")
+			}
+		}
 		return c.header(number.Uint64()), nil
 	}
 	if number != nil && number.Cmp(c.finTag) == 0 && c.finTag.Cmp(c.tipTag) != 0 {
@@ -139,6 +158,13 @@ func dlParse(ws []string) (start, chunk uint64, finTag bool, cl *dlClient) {
 		for _, it := range strings.Split(ws[8], ";") {
 			p := strings.Split(it, ":")
 			cl.filterErrs[int(bigOf(p[0]).Uint64())] = p[1][0]
+		}
+	}
+	cl.hdrFaults = map[int]byte{}
+	if len(ws) > 9 && ws[9] != "-" {
+		for _, it := range strings.Split(ws[9], ";") {
+			p := strings.Split(it, ":")
+			cl.hdrFaults[int(bigOf(p[0]).Uint64())] = p[1][0]
 		}
 	}
 	if ws[5] != "-" {
@@ -333,7 +359,28 @@ func dlGen(r *Run, rng *Rng) {
 				es = strings.Join(errs, ";")
 			}
 		}
-		line := fmt.Sprintf("run %d %d %s %d %s %s %s %s", start, chunk, b2s(rng.Chance(70)), tip0, cs, strings.Join(inputs, ";"), ns, es)
+		// header answers that disagree with the logs once (a reorg or a lagging backend between eth_getLogs and the header
+		// query: the range is fetched again), block not found, transient errors — at most 4 per run, so that the
+		// give-up path after 6 consecutive mismatches (C06's subject) stays out of reach
+		hs := "-"
+		if rng.Chance(40) {
+			var hf []string
+			nh := 1 + rng.Intn(4)
+			used := map[int]bool{}
+			for k := 0; k < nh; k++ {
+				at := rng.Intn(3 * iters)
+				if used[at] || used[at-1] || used[at+1] {
+					continue
+				}
+				used[at] = true
+				hf = append(hf, fmt.Sprintf("%d:%c", at, "mmmne"[rng.Intn(5)]))
+			}
+			if len(hf) > 0 {
+				hs = strings.Join(hf, ";")
+				r.Count("branch:header-faults")
+			}
+		}
+		line := fmt.Sprintf("run %d %d %s %d %s %s %s %s %s", start, chunk, b2s(rng.Chance(70)), tip0, cs, strings.Join(inputs, ";"), ns, es, hs)
 		dlExec(r, line)
 		r.Case(line)
 		if i < 2 {
